@@ -227,6 +227,15 @@ def run(seed, tier, replay=None):
             rep.violate(what="ppf raised on q in [0, 1]", error=repr(e), input=base, call="NoisyQuadraticDistribution.ppf")
             continue
         # ---- shapes
+        if di % 4 == 0:
+            with np.errstate(all="ignore"):
+                try:
+                    fails = C.shape_probe(d.ppf, qs)
+                except Exception as e:  # noqa: BLE001
+                    fails = [("?", "raised " + repr(e))]
+            for sh, msg in fails[:1]:
+                rep.violate(what=f"ppf: {msg} (output shape must equal input shape)", input=dict(base, qs=[C.fhex(q) for q in qs[:6]]),
+                            call="NoisyQuadraticDistribution.ppf")
         if iv.shape != (len(qs),) or np.shape(s0) != () or np.shape(e0) != (0,) or (m2 is not None and np.shape(m2) != (2, 2)):
             rep.violate(what="ppf output shape differs from input shape", input=base,
                         observed=[list(iv.shape), list(np.shape(s0)), list(np.shape(e0))], call="NoisyQuadraticDistribution.ppf")
@@ -326,7 +335,7 @@ def run(seed, tier, replay=None):
         extra=dict(driver_lines=drv.lines,
                    extra=dict(compared=n_cmp, bit_identical=n_ident, worst_inverse_error=worst["inverse"],
                               worst_rel_diff_within_tol=worst["rel_diff"],
-                              note="|cdf(ppf q) - q| <= 1e-5 is a numerical fact measured here (conditional theorem "
+                              note="|cdf(ppf q) - q| <= 1e-5 under IEEE rounding is measured here (theorem for even c over R; conditional theorem "
                                    "C07.bisect_accuracy gives it from monotonicity + a Lipschitz constant of the cdf)")))
 
 
